@@ -387,6 +387,41 @@ pub fn run_c16(seed: u64, n: usize, out: &str) {
         for e in chain.iter() { t *= elem_tr(e); }
         push_apply(&mut sink, &chain, &t, op, &i, true);
     }
+    // matrices whose diagonal is EXACTLY 1 with non-zero off-diagonal entries (a rotation by less than 8e-7 degrees: the cosine rounds
+    // to 1, the sine does not vanish; or translate * scale(1/c, 1/c, 1) * rotate(a), c = cos a): neither the identity nor a pure
+    // translation (seeded change C16-m5: a "translation-only" fast path recognised by the diagonal).  Own generator state: the
+    // sequence below is unchanged, only cut at n
+    {
+        let mut y = Rng::new(seed ^ 0xC16_D1A6);
+        let (mut k, mut guard) = (0usize, 0usize);
+        while k < (n / 300).max(2) && sink.len() < n && guard < 200 {
+            guard += 1;
+            let ax = y.below(3);
+            let sg: f64 = if y.chance(0.5) { 1.0 } else { -1.0 };
+            let rot = |d: Float| match ax { 0 => Elem::Rx(d), 1 => Elem::Ry(d), _ => Elem::Rz(d) };
+            let tr = |y: &mut Rng| -> Float { match y.below(3) { 0 => 0.0, 1 => y.logmag(-4.0, 3.0) as Float, _ => y.range(-10.0, 10.0) as Float } };
+            let chain: Vec<Elem> = if y.chance(0.5) {
+                let a = (sg * (10.0f64).powf(y.range(-12.0, -6.3))) as Float;
+                vec![Elem::Tr(tr(&mut y), tr(&mut y), tr(&mut y)), rot(a)]
+            } else {
+                let a = (sg * y.range(5.0, 70.0)) as Float;
+                let sc = 1.0 / a.to_radians().cos();
+                let se = match ax { 0 => Elem::Sc(1.0, sc, sc), 1 => Elem::Sc(sc, 1.0, sc), _ => Elem::Sc(sc, sc, 1.0) };
+                vec![Elem::Tr(tr(&mut y), tr(&mut y), tr(&mut y)), se, rot(a)]
+            };
+            let mut t = Transform::new();
+            for e in chain.iter() { t *= elem_tr(e); }
+            let m = mats(&t);
+            let offdiag = [1usize, 2, 4, 6, 8, 9].iter().any(|i| m[*i] != 0.0);
+            if !(m[0] == 1.0 && m[5] == 1.0 && m[10] == 1.0 && offdiag) { continue; }
+            k += 1;
+            for _ in 0..12 {
+                let op = *y.pick(&C16_OPS);
+                let (i, adv) = c16_inputs(&mut y, &m, op);
+                push_apply(&mut sink, &chain, &t, op, &i, adv);
+            }
+        }
+    }
     while sink.len() < n {
         let chain = if r.chance(0.45) { rand_chain(&mut r) } else { c16_chain(&mut r) };
         let mut t = Transform::new();
